@@ -118,7 +118,9 @@ end
 mutual
 /-- without `top` / `bottom` boxes `translate_subtree` is never called: nothing moves -/
 theorem shift_noTB (a b : Rat) : ∀ (k : VBox), noTB k = true → shift a b 0 k = k
-  | .text y h mt mb base va, _ => by simp [shift, Rat.add_zero]
+  | .text y h mt mb base va, hn => by
+    simp only [noTB, Bool.not_eq_true'] at hn
+    simp [shift, hn, Rat.add_zero]
   | .box y h mt mb base st kids, hn => by
     simp only [noTB, Bool.and_eq_true, Bool.not_eq_true'] at hn
     unfold shift
